@@ -9,7 +9,7 @@ def clip(s, n):
 
 def order(path):
     cid, m = path.split("/")[-3], path.split("/")[-2]
-    rnd = {"m": 1, "r2": 2, "r3": 3, "r4": 4}[re.match(r"(r2|r3|r4|m)", m).group(1)]
+    rnd = {"m": 1, "r2": 2, "r3": 3, "r4": 4, "r5": 5}[re.match(r"(r2|r3|r4|r5|m)", m).group(1)]
     return (cid, rnd, m)
 
 rows = []
